@@ -113,7 +113,7 @@ def Mode.isWarm : Mode → Bool
 /-- Error classes (`RuntimeError`) that the modelled paths can produce. -/
 inductive Err where
   | resourceFaulted | nullReference | typeMismatch | undefinedFb | undefinedProgram
-  | undefinedVariable | invalidTaskSingle | simulationFault | overflow
+  | undefinedVariable | invalidTaskSingle | simulationFault | overflow | retainStore
 deriving Repr, DecidableEq, Inhabited
 
 /-! ### Ordered maps (`IndexMap<SmolStr, Value>`) as association lists -/
@@ -527,17 +527,26 @@ deriving Repr, Inhabited
 /-- `TaskState` is the C06 one. -/
 abbrev TaskState := TrustVerif.C06.TState
 
-/-- `RetainManager` as far as it is observable here: a store is configured or not; with
-`autosave` the save interval is zero, so every successful cycle saves. -/
-structure RetainCfg where
-  autosave : Bool
-deriving Repr, Inhabited
-
 /-- `RetainSnapshot`. -/
 abbrev Snapshot := List (Nat × Val)
 
-/-- The retain file outlives the process: `none` = no file. -/
-abbrev Disk := Option Snapshot
+/-- `RetainManager` (retain.rs) minus the store handle: `autosave` = the save interval is
+`Some(0)` (every cycle that finds the manager dirty saves), otherwise `None` (only explicit
+saves); `dirty`, `last_save`, and `last_snapshot` — the reference of the "nothing changed, skip
+the write" test. -/
+structure RetainMgr where
+  autosave : Bool
+  dirty : Bool := false
+  lastSave : Int := 0
+  lastSnapshot : Option Snapshot := none
+deriving Repr, Inhabited
+
+/-- The storage medium outlives the process: `file = none` = nothing stored yet; `writable` =
+whether a `RetainStore::store` call succeeds right now (directory present / scripted result). -/
+structure Disk where
+  file : Option Snapshot := none
+  writable : Bool := true
+deriving Repr, Inhabited
 
 structure Runtime where
   globalsMeta : List GlobalMeta := []
@@ -551,7 +560,7 @@ structure Runtime where
   time : Int := 0
   cycleCounter : Nat := 0
   fault : Option Err := none
-  retain : Option RetainCfg := none
+  retain : Option RetainMgr := none
 deriving Repr, Inhabited
 
 def findFb (fbs : List FbDef) (ty : Nat) : Option FbDef := fbs.find? (·.name == ty)
@@ -729,22 +738,57 @@ def applySnapshotAux (ms : List GlobalMeta) : Storage → Snapshot → Storage
 def applyRetainSnapshot (rt : Runtime) (snap : Snapshot) : Runtime :=
   { rt with storage := applySnapshotAux rt.globalsMeta rt.storage snap }
 
-/-- `save_retain_store` with a `FileRetainStore` (encode ∘ decode = id is C10's theorem): no store
-configured ⇒ nothing happens. -/
-def saveRetainStore (rt : Runtime) (disk : Disk) : Disk :=
-  match rt.retain with
-  | some _ => some (retainSnapshot rt)
-  | none => disk
+/-- `IndexMap::eq` as used by `RetainSnapshot == RetainSnapshot`: same length and every entry of
+the first found with an equal value in the second (order-insensitive).  Values are compared
+structurally; the IEEE corner cases of the derived `PartialEq` (NaN, ±0.0) are C10's subject
+(`c10_manager_counterexample_negzero`) and outside this model's value abstraction. -/
+def snapSub : Snapshot → Snapshot → Bool
+  | [], _ => true
+  | (k, v) :: rest, other =>
+    (match aget other k with
+     | some w => v.beq w
+     | none => false) && snapSub rest other
 
-/-- `load_retain_store`: no store or no file ⇒ the empty snapshot. -/
+def snapEq (a b : Snapshot) : Bool := decide (a.length = b.length) && snapSub a b
+
+/-- `RetainManager::save_snapshot(snapshot, now)`: skip the write when the snapshot equals the
+remembered one; otherwise `store.store(&snapshot)?` and ONLY THEN remember it and clear
+`dirty` / set `last_save`.  A failing store leaves the manager untouched. -/
+def RetainMgr.saveSnapshot (m : RetainMgr) (snap : Snapshot) (now : Int) (disk : Disk) :
+    RetainMgr × Disk × Option Err :=
+  if (match m.lastSnapshot with | some l => snapEq l snap | none => false) then
+    ({ m with dirty := false, lastSave := now }, disk, none)
+  else if disk.writable then
+    ({ m with lastSnapshot := some snap, dirty := false, lastSave := now },
+     { disk with file := some snap }, none)
+  else (m, disk, some .retainStore)
+
+/-- `save_retain_store`: no store configured ⇒ `Ok` and nothing happens (the file codec is the
+identity here: encode ∘ decode = id is C10's theorem). -/
+def saveRetainStore (rt : Runtime) (disk : Disk) : Runtime × Disk × Option Err :=
+  match rt.retain with
+  | some m =>
+    let (m', disk', res) := m.saveSnapshot (retainSnapshot rt) rt.time disk
+    ({ rt with retain := some m' }, disk', res)
+  | none => (rt, disk, none)
+
+/-- `maybe_save_retain_store`: `should_save(now)` then save.  With interval `Some(0)`:
+`dirty`. -/
+def maybeSaveRetainStore (rt : Runtime) (disk : Disk) : Runtime × Disk × Option Err :=
+  match rt.retain with
+  | some m => if m.autosave && m.dirty then saveRetainStore rt disk else (rt, disk, none)
+  | none => (rt, disk, none)
+
+/-- `load_retain_store`: no store or nothing stored ⇒ the empty snapshot. -/
 def loadRetainStore (rt : Runtime) (disk : Disk) : Runtime :=
-  match rt.retain, disk with
+  match rt.retain, disk.file with
   | some _, some snap => applyRetainSnapshot rt snap
   | _, _ => rt
 
-/-- `set_retain_store(Some(FileRetainStore), interval)`. -/
+/-- `set_retain_store(Some(store), interval)` = `RetainManager::configure`: `last_save = now`,
+not dirty, nothing remembered. -/
 def setRetainStore (rt : Runtime) (autosave : Bool) : Runtime :=
-  { rt with retain := some { autosave := autosave } }
+  { rt with retain := some { autosave := autosave, dirty := false, lastSave := rt.time, lastSnapshot := none } }
 
 /-! ### Cycle (`runtime/cycle.rs`, `io.rs`) -/
 
@@ -1005,10 +1049,14 @@ def cycle (rt : Runtime) (disk : Disk) : Runtime × Disk × Option Err :=
             | .error e => (applyFault rt2 e, disk, some e)
             | .ok io' =>
               let rt3 := { rt2 with io := io' }
-              let disk' := match rt.retain with
-                | some cfg => if cfg.autosave then saveRetainStore rt3 disk else disk
-                | none => disk
-              ({ rt3 with cycleCounter := rt3.cycleCounter + 1 }, disk', none)
+              -- `if self.retain.has_store() { mark_dirty(); maybe_save_retain_store()? }`
+              match rt3.retain with
+              | none => ({ rt3 with cycleCounter := rt3.cycleCounter + 1 }, disk, none)
+              | some m =>
+                let rt4 := { rt3 with retain := some { m with dirty := true } }
+                match maybeSaveRetainStore rt4 disk with
+                | (rt5, disk', some e) => (applyFault rt5 e, disk', some e)
+                | (rt5, disk', none) => ({ rt5 with cycleCounter := rt5.cycleCounter + 1 }, disk', none)
 
 /-- `advance_time`. -/
 def advanceTime (rt : Runtime) (dt : Int) : Runtime := { rt with time := rt.time + dt }
